@@ -54,3 +54,10 @@ for (_mf, _tier) in ((2, 'off'), (4, 'off')):
         trusted=['ASSUMED frame contracts (stubs) of silk_Decode, celt_decode_with_ec(_dred), opus_custom_decoder_ctl, silk_ResetDecoder: result ranges and write extents only; each asserts the validity of the buffers it receives'],
         bounds='Fs = 8000, TOC duration and output buffer <= %d x 2.5 ms, payload of <= 6 symbolic bytes, decoder gain 0; recursion depth <= 8' % _mf,
         what='opus_decode_frame glue (frames up to %g ms): result range, exact duration of a real frame, concealment succeeds with a multiple of 2.5 ms, buffers handed to SILK/CELT are large enough, redundancy offsets inside the packet, no internal abort' % (_mf * 2.5)))
+
+# the C01 clause on the packet-inspection functions ("reads only the packet"): shared with C06
+import copy as _copy
+from proofs import reg_C06 as _r6
+for _g in _r6.GROUPS:
+    if _g['name'] in ('has_lbrr_safe', 'has_lbrr_safe_all'):
+        _h = _copy.deepcopy(_g); _h.pop('prop', None); GROUPS.append(_h)
